@@ -233,9 +233,36 @@ func c01scalar(c *vf.Ctx, i int) *big.Int {
 	return k.Add(k, big.NewInt(1))
 }
 
+// c01charsetPoint returns a curve point whose compressed hex form consists
+// only of characters of the CashAddr alphabet (no 'b', no '1'), so that
+// DecodeAddress first takes it for a cash address with a bad checksum (a rare,
+// data-dependent path: about 1.5e-4 of random keys).
+func c01charsetPoint(r *vf.Rand) ref.Point {
+	const nib = "\x00\x02\x03\x04\x05\x06\x07\x08\x09\x0a\x0c\x0d\x0e\x0f"
+	for {
+		x := make([]byte, 32)
+		for j := range x {
+			x[j] = nib[r.Intn(14)]<<4 | nib[r.Intn(14)]
+		}
+		if p, err := ref.LiftX(new(big.Int).SetBytes(x), r.Bool()); err == nil {
+			return p
+		}
+	}
+}
+
+func c01pubkeyCharsetCase(c *vf.Ctx, i int) {
+	p := c01charsetPoint(c.R)
+	c.Inc("pubkeys_with_hex_inside_cashaddr_charset")
+	c01pubkeyPoint(c, p, "charset-x")
+}
+
 func c01pubkeyCase(c *vf.Ctx, i int) {
 	k := c01scalar(c, i)
 	p := ref.BaseMul(k)
+	c01pubkeyPoint(c, p, k.Text(16))
+}
+
+func c01pubkeyPoint(c *vf.Ctx, p ref.Point, label string) {
 	sers := []struct {
 		name string
 		b    []byte
@@ -300,7 +327,7 @@ func c01pubkeyCase(c *vf.Ctx, i int) {
 		}
 	}
 	if c.WantSample() {
-		c.Sample(map[string]string{"scalar": k.Text(16), "compressed": hx(p.Compressed())})
+		c.Sample(map[string]string{"scalar": label, "compressed": hx(p.Compressed())})
 	}
 }
 
@@ -309,7 +336,7 @@ func init() {
 		ID:    "C01",
 		Title: "Every constructible address survives encode -> decode unchanged",
 		Rule: "stream hashes: directed hashes (all-zero, all-ones, 1..n-1 leading zero bytes, every single set bit, every single clear bit) then seeded random hashes, each under all 8 hash kinds x 6 nets x 4 renderings; " +
-			"stream scripts: script lengths 0..520 then random; stream pubkeys: scalars 1..16, n-16..n-1, leading-zero scalars, random, x 3 serialisations x 6 nets x 2 hex cases. " +
+			"stream scripts: script lengths 0..520 then random; stream pubkeys: scalars 1..16, n-16..n-1, leading-zero scalars, random, x 3 serialisations x 6 nets x 2 hex cases; stream pubkeys-cashaddr-charset: points whose compressed hex lies inside the CashAddr alphabet (the decoder first tries them as cash addresses). " +
 			"A case is non-trivial and distinct per (kind, net, payload).",
 		Assumptions: []string{
 			"reference CashAddr / Base58Check encoders written from the specifications (self-tested on the specifications' vectors on every run)",
@@ -328,6 +355,7 @@ func init() {
 			{Name: "hashes", N: func(t vf.Tier) int { return directedHashCount(32) + t.Sz(20000, 300000) }, Run: c01hashCase},
 			{Name: "scripts", N: func(t vf.Tier) int { return 521 + t.Sz(5000, 100000) }, Run: c01scriptCase},
 			{Name: "pubkeys", N: func(t vf.Tier) int { return 64 + t.Sz(2000, 30000) }, Run: c01pubkeyCase},
+			{Name: "pubkeys-cashaddr-charset", N: func(t vf.Tier) int { return t.Sz(400, 6000) }, Run: c01pubkeyCharsetCase},
 		},
 	})
 }
